@@ -2173,6 +2173,9 @@ def run(ctx):
     # lazily inferred default geometry (Model/C11_geom.lean, `geo` protocol): tie + history-independence oracle
     from harness.props import c11_geom
     c11_geom.geometry_programs(ctx, cuqi, 30 if not thorough else 600, thorough)
+    # RegularizedGaussian-family originals whose conditioning variable is given directly as None
+    from harness.props import c11_reg
+    c11_reg.regularized_none_programs(ctx, cuqi, 36 if not thorough else 360)
     # the conditioning call stream of the real Gibbs samplers vs the model's `streamOps` (Model/C11_gibbs.lean)
     from harness.props import c11_gibbs
     c11_gibbs.gibbs_streams(ctx, cuqi, thorough)
